@@ -258,7 +258,9 @@ func (n *nonceCtr) next() []byte {
 }
 
 // decodeRequestStream parses the complete client->server byte stream as the server would see
-// it after the intermediate relays (exactly one or zero identity headers).
+// it after the intermediate relays (exactly one or zero identity headers). When the data chunks
+// after the request header do not parse to the end, the report of what did parse is returned
+// together with the error (used to find chunk boundaries in a stream that is still being written).
 func decodeRequestStream(b []byte, psk []byte, prefixLen, idHeaders int, addrLen int) (*wireReport, error) {
 	rep := &wireReport{}
 	sl := len(psk)
@@ -304,20 +306,20 @@ func decodeRequestStream(b []byte, psk []byte, prefixLen, idHeaders int, addrLen
 	rep.Plain = append(rep.Plain, vh[addrLen+2+pad:]...)
 	for p < len(b) {
 		if len(b) < p+2+16 {
-			return nil, fmt.Errorf("trailing %d bytes are not a length chunk", len(b)-p)
+			return rep, fmt.Errorf("trailing %d bytes are not a length chunk", len(b)-p)
 		}
 		lc, err := aead.Open(nil, nc.next(), b[p:p+18], nil)
 		if err != nil {
-			return nil, fmt.Errorf("length chunk %d does not open: %w", len(rep.Chunks), err)
+			return rep, fmt.Errorf("length chunk %d does not open: %w", len(rep.Chunks), err)
 		}
 		p += 18
 		l := int(binary.BigEndian.Uint16(lc))
 		if len(b) < p+l+16 {
-			return nil, fmt.Errorf("payload chunk %d truncated", len(rep.Chunks))
+			return rep, fmt.Errorf("payload chunk %d truncated", len(rep.Chunks))
 		}
 		pc, err := aead.Open(nil, nc.next(), b[p:p+l+16], nil)
 		if err != nil {
-			return nil, fmt.Errorf("payload chunk %d does not open: %w", len(rep.Chunks), err)
+			return rep, fmt.Errorf("payload chunk %d does not open: %w", len(rep.Chunks), err)
 		}
 		p += l + 16
 		rep.Chunks = append(rep.Chunks, l)
@@ -361,22 +363,22 @@ func decodeResponseStream(b []byte, psk []byte, prefixLen int, reqSalt []byte) (
 				break
 			}
 			if len(b) < p+18 {
-				return nil, fmt.Errorf("trailing %d bytes are not a length chunk", len(b)-p)
+				return rep, fmt.Errorf("trailing %d bytes are not a length chunk", len(b)-p)
 			}
 			lc, err := aead.Open(nil, nc.next(), b[p:p+18], nil)
 			if err != nil {
-				return nil, fmt.Errorf("length chunk %d does not open: %w", len(rep.Chunks), err)
+				return rep, fmt.Errorf("length chunk %d does not open: %w", len(rep.Chunks), err)
 			}
 			p += 18
 			l = int(binary.BigEndian.Uint16(lc))
 		}
 		first = false
 		if len(b) < p+l+16 {
-			return nil, fmt.Errorf("payload chunk %d truncated", len(rep.Chunks))
+			return rep, fmt.Errorf("payload chunk %d truncated", len(rep.Chunks))
 		}
 		pc, err := aead.Open(nil, nc.next(), b[p:p+l+16], nil)
 		if err != nil {
-			return nil, fmt.Errorf("payload chunk %d does not open: %w", len(rep.Chunks), err)
+			return rep, fmt.Errorf("payload chunk %d does not open: %w", len(rep.Chunks), err)
 		}
 		p += l + 16
 		rep.Chunks = append(rep.Chunks, l)
